@@ -157,6 +157,13 @@ FOCUSED = [
     {"initial": (("a.x", URIS[0], frozenset(["m0"])),), "threads": [[("setmeta", ("a.x", ("s1",)))], [("remove", ("a.x",)), ("reg", ("a.x", URIS[2], True, ()))]]},
     {"initial": (("a.x", URIS[0], frozenset()),), "threads": [[("remove", ("a.x",))], [("reg", ("a.x", URIS[1], True, ()))], [("lookup", ("a.x",))]]},
     {"initial": (("a.x", URIS[0], frozenset()),), "threads": [[("remove", ("a.x",)), ("reg", ("a.x", URIS[1], True, ()))], [("listm", ("a.",)), ("count", ())]]},
+    # readers that return several fields must not see a mix of two versions of an entry
+    {"initial": (("a.x", URIS[0], frozenset(["m0"])),), "threads": [[("lookupm", ("a.x",))], [("reg", ("a.x", URIS[1], False, ("m1",)))]]},
+    {"initial": (("a.x", URIS[0], frozenset(["m0"])),), "threads": [[("lookupm", ("a.x",)), ("lookupm", ("a.x",))], [("reg", ("a.x", URIS[1], False, ("m1",))), ("reg", ("a.x", URIS[2], False, ("m2",)))]]},
+    {"initial": (("a.x", URIS[0], frozenset(["m0"])),), "threads": [[("lookupm", ("a.x",))], [("remove", ("a.x",)), ("reg", ("a.x", URIS[1], True, ("m1",)))]]},
+    {"initial": (("a.x", URIS[0], frozenset(["m0"])), ("a.y", URIS[0], frozenset(["m0"]))), "threads": [[("listm", ("a.",))], [("reg", ("a.x", URIS[1], False, ("m1",))), ("reg", ("a.y", URIS[1], False, ("m1",)))]]},
+    {"initial": (("a.x", URIS[0], frozenset(["m0"])), ("a.y", URIS[0], frozenset(["m0"]))), "threads": [[("count", ()), ("count", ())], [("remove_prefix", ("a.",))], [("reg", ("a.x", URIS[2], True, ()))]]},
+    {"initial": (("a.x", URIS[0], frozenset(["m0"])),), "threads": [[("lookupm", ("a.x",))], [("setmeta", ("a.x", ("s1",)))], [("reg", ("a.x", URIS[1], False, ("m1",)))]]},
 ]
 
 
@@ -272,10 +279,10 @@ def plan(tier, seed):
     shards = []
     n = 12 if tier == "quick" else 32
     for i in range(n):
-        shards.append({"i": i, "backend": "memory", "opsets": 6 if tier == "quick" else 40, "bound": 1 if tier == "quick" else 2,
+        shards.append({"i": i, "nshards": n, "backend": "memory", "opsets": 5 if tier == "quick" else 40, "bound": 1 if tier == "quick" else 2,
                        "max_runs": 120 if tier == "quick" else 3000, "nrandom": 15 if tier == "quick" else 300, "npct": 10 if tier == "quick" else 150})
     for i in range(4 if tier == "quick" else 12):
-        shards.append({"i": 100 + i, "backend": "sql", "opsets": 3 if tier == "quick" else 16, "bound": 1, "max_runs": 40 if tier == "quick" else 500,
+        shards.append({"i": 100 + i, "nshards": 4 if tier == "quick" else 12, "backend": "sql", "opsets": 2 if tier == "quick" else 16, "bound": 1, "max_runs": 40 if tier == "quick" else 500,
                        "nrandom": 6 if tier == "quick" else 80, "npct": 4 if tier == "quick" else 40})
     return shards
 
@@ -289,12 +296,11 @@ def run_shard(shard, rec):
     try:
         if shard["backend"] == "memory":
             rec.count("sql_schedules")
-        opsets = []
+        # every focused op set is explored in every run (dealt round-robin over the shards of a back-end), then random ones
+        nsh = shard.get("nshards", 12)
+        opsets = [f for j, f in enumerate(FOCUSED) if j % nsh == shard["i"] % nsh]
         for k in range(shard["opsets"]):
-            if (shard["i"] + k) % 3 == 0:
-                opsets.append(FOCUSED[(shard["i"] // 3 + k) % len(FOCUSED)])
-            else:
-                opsets.append(gen_opset(r, r.choice([2, 2, 3])))
+            opsets.append(gen_opset(r, r.choice([2, 2, 3])))
         for opset in opsets:
             if rec.should_stop(8):
                 break
